@@ -55,3 +55,9 @@ func verifC03EventBody(n int) {
 func VerifC03_EventBody4()  { verifC03EventBody(4) }
 func VerifC03_EventBody8()  { verifC03EventBody(8) }
 func VerifC03_EventBody12() { verifC03EventBody(12) }
+
+// Twin: same body as All3 followed by assert(false); must be reported violated (vacuity guard).
+func VerifC03_Twin() {
+	verifC03All(3)
+	verifAssert(false, "twin-false")
+}
